@@ -307,3 +307,38 @@ def run_exc_case(case, build, allowed, forbidden, required, args, must_parse=Tru
         t = sp.parse(text, FLAGS)
         check_lookbehind_widths(t)
     return True
+
+
+# ---------------------------------------------------------------------------------------------------
+# E3: the matching / splitting wrappers against direct use of re on the emitted text
+
+def direct(p, src):
+    """what re finds: [(text, start, end, group spans, {name: group number})] under MULTILINE | DOTALL"""
+    rx = re.compile(str(p), FLAGS)
+    out = []
+    for m in rx.finditer(src):
+        out.append((m.group(0), m.start(), m.end(), [m.span(k) for k in range(1, rx.groups + 1)], [m.group(k) for k in range(1, rx.groups + 1)]))
+    return out, dict(rx.groupindex)
+
+
+class FakeFile:
+    def __init__(self, text):
+        self.text = text
+
+    def read(self):
+        return self.text
+
+    def __enter__(self):
+        return self
+
+    def __exit__(self, *a):
+        return False
+
+
+def fake_open_factory(path, content, log):
+    def fake_open(file=None, mode="r", encoding=None, *a, **k):
+        log.append((file, mode, encoding))
+        if file != path:
+            raise FileNotFoundError(file)
+        return FakeFile(content)
+    return fake_open
